@@ -23,8 +23,8 @@ Section Read.
             | HOk =>
                 Do (OpMeta (PTail b)) (fun r2 =>
                   match r2 with
-                  | RMeta _ => k (Some b)
-                  | RErr ENotFound => last_complete ids' k
+                  | RMeta true => k (Some b)
+                  | RMeta false | RErr ENotFound => last_complete ids' k
                   | _ => k None
                   end)
             end)
